@@ -88,7 +88,8 @@ def gen_fragment(rng, depth=0, root=None, ns_choice=None):
     attrs = ''
     if kind == 'default': attrs += ' xmlns="%s"' % esc_a(rng.choice(FR_NS)); tag = name
     elif kind == 'prefix':
-        p = rng.choice(['p', 'q', 'xc']); attrs += ' xmlns:%s="%s"' % (p, esc_a(rng.choice(FR_NS))); tag = p + ':' + name
+        i = rng.randrange(len(FR_NS)); p = ['p', 'q', 'xc'][i]       # one prefix per namespace: re-binding a prefix is the open finding's class
+        attrs += ' xmlns:%s="%s"' % (p, esc_a(FR_NS[i])); tag = p + ':' + name
     else: tag = name
     for k in rng.sample(['k', 'operation', 'type', 'select'], rng.choice([0, 0, 1, 2])):
         attrs += ' %s="%s"' % (k, esc_a(gen_str(rng, 4).replace('\r', '')))
@@ -432,14 +433,17 @@ def oracle(case, r, dns, iosxe):
     if errs:
         # open finding: a caller document rooted at an UN-namespaced filter/config/source goes out un-namespaced under a
         # prefixed envelope. Signature = the request is right once exactly those roots are read in the base namespace.
-        fixed = qualify_roots(opel, op)
+        skip = 0
+        if op in ('dispatch', 'rpc') and 'xml' in a['rpc_command']:
+            skip = len(parse_frag(a['rpc_command']['xml'])[4])      # the caller's own children are not ours to judge
+        fixed = qualify_roots(opel, op, skip)
         if fixed is not None:
             e2 = check_op(case, fixed, dns, iosxe)
             if e2 == []: return ('; '.join(errs[:3]), 'unqualified_caller_root')
         return ('; '.join(errs[:3]), sig_of(case, errs))
     return None
 
-def qualify_roots(opel, op):
+def qualify_roots(opel, op, skip=0):
     """opel with its un-namespaced filter/config/source children (and config under source) moved to the base namespace; None if there are none"""
     hit = [False]
     def fix(c, names):
@@ -447,8 +451,8 @@ def qualify_roots(opel, op):
             hit[0] = True
             return ['E', B, c[2], c[3], c[4]]
         return c
-    kids = []
-    for c in opel[4]:
+    kids = list(opel[4][:skip])
+    for c in opel[4][skip:]:
         c = fix(c, ('filter', 'config', 'source'))
         if op == 'validate' and c[0] == 'E' and (c[1], c[2]) == (B, 'source'):
             c = ['E', c[1], c[2], c[3], [fix(k, ('config',)) for k in c[4]]]
@@ -539,8 +543,12 @@ def frag_texts(v):
 def shadow_pred(case):
     """a caller fragment uses the base namespace BELOW its root (where the fragment may have re-bound the default namespace /
     the nc prefix that the envelope uses for it)"""
+    import re
     for x in frag_texts(case['args']):
         if '>' in x and B in x[x.index('>'):]: return True
+        bound = {}
+        for pfx, uri in re.findall(r'xmlns:([A-Za-z_][\w.-]*)="([^"]*)"', x):
+            if bound.setdefault(pfx, uri) != uri: return True       # one prefix bound to two namespaces inside the fragment
     return False
 
 def sig_of(case, errs):
@@ -550,6 +558,8 @@ def sig_of(case, errs):
 def shadow_cases():
     e = dict(format='xml', target='running', default_operation=None, test_option=None, error_option=None)
     return [
+        dict(profile='default', op='dispatch', args=dict(filter=None, source=None, rpc_command={'as': 'ele', 'xml':
+             '<xc:r xmlns:xc="urn:x"><a xmlns="urn:x"><xc:e xmlns:xc="urn:y"><b/></xc:e></a></xc:r>'})),
         dict(profile='alu', op='edit_config', args=dict(e, config={'xml': '<config xmlns="%s"><data xmlns="urn:x"><q:b xmlns:q="%s"/></data></config>' % (B, B), 'as': 'ele'})),
         dict(profile='default', op='edit_config', args=dict(e, config={'xml': '<config xmlns="%s"><nc:data xmlns:nc="urn:x"><b xmlns="%s"/></nc:data></config>' % (B, B), 'as': 'str'})),
         dict(profile='default', op='edit_config', args=dict(e, config={'xml': '<config xmlns="%s"><data xmlns="urn:x"><q:b xmlns:q="%s"/></data></config>' % (B, B), 'as': 'str'})),
